@@ -446,6 +446,83 @@ fn still_fails(prop: &dyn Prop, sc: &Value, class: &str) -> bool {
 
 /// Greedy delta-debugging over the arrays the property declares shrinkable plus the property's own
 /// structural candidates, while the same violation class persists.
+/// Minimisation in a child process with a capped address space and a wall-clock limit: the code
+/// under test may be broken in ways that exhaust memory or never return while candidates are
+/// executed, and that must not take the supervisor with it. Any failure of the child falls back to
+/// the un-minimised scenario.
+pub fn shrink_isolated(prop: &dyn Prop, scenario: &Value, class: &str, budget: u64, scratch: &str) -> (Value, u64) {
+    let base = format!("{}/.shrink-{}-{:x}", scratch, std::process::id(), fnv64(class.as_bytes()));
+    let (inp, outp) = (format!("{}.in.json", base), format!("{}.out.json", base));
+    let job = serde_json::json!({"property": prop.id(), "class": class, "budget": budget, "scenario": scenario});
+    let fallback = (scenario.clone(), 0u64);
+    if std::fs::write(&inp, serde_json::to_string(&job).unwrap_or_default()).is_err() {
+        return fallback;
+    }
+    let _ = std::fs::remove_file(&outp);
+    let exe = match std::env::current_exe() {
+        Ok(e) => e,
+        Err(_) => return fallback,
+    };
+    let child = Command::new(&exe).arg("shrinkjob").arg(&inp).arg(&outp).stdout(Stdio::null()).stderr(Stdio::null()).spawn();
+    let mut res = fallback.clone();
+    if let Ok(mut ch) = child {
+        let t0 = Instant::now();
+        loop {
+            match ch.try_wait() {
+                Ok(Some(_)) => break,
+                Ok(None) => {
+                    if t0.elapsed() > Duration::from_secs(1200) {
+                        let _ = ch.kill();
+                        let _ = ch.wait();
+                        break;
+                    }
+                    std::thread::sleep(Duration::from_millis(100));
+                }
+                Err(_) => break,
+            }
+        }
+        if let Ok(txt) = std::fs::read_to_string(&outp) {
+            if let Ok(v) = serde_json::from_str::<Value>(&txt) {
+                if v.get("scenario").is_some() {
+                    res = (v["scenario"].clone(), v["steps"].as_u64().unwrap_or(0));
+                }
+            }
+        }
+    }
+    let _ = std::fs::remove_file(&inp);
+    let _ = std::fs::remove_file(&outp);
+    res
+}
+
+fn fnv64(b: &[u8]) -> u64 {
+    let mut h = 0xcbf29ce484222325u64;
+    for x in b {
+        h ^= *x as u64;
+        h = h.wrapping_mul(0x100000001b3);
+    }
+    h
+}
+
+/// `vsim shrinkjob <in> <out>`: the child side of `shrink_isolated`
+pub fn shrinkjob_main(props: &[&dyn Prop], inp: &str, outp: &str) -> i32 {
+    unsafe {
+        let lim = libc::rlimit { rlim_cur: 24 << 30, rlim_max: 24 << 30 };
+        libc::setrlimit(libc::RLIMIT_AS, &lim);
+    }
+    let job: Value = match std::fs::read_to_string(inp).ok().and_then(|t| serde_json::from_str(&t).ok()) {
+        Some(v) => v,
+        None => return 2,
+    };
+    let pid = job["property"].as_str().unwrap_or("");
+    let Some(prop) = props.iter().find(|p| p.id() == pid) else { return 2 };
+    let (sc, steps) = shrink(*prop, &job["scenario"], job["class"].as_str().unwrap_or(""), job["budget"].as_u64().unwrap_or(0));
+    let out = serde_json::json!({"scenario": sc, "steps": steps});
+    match std::fs::write(outp, serde_json::to_string(&out).unwrap_or_default()) {
+        Ok(_) => 0,
+        Err(_) => 2,
+    }
+}
+
 pub fn shrink(prop: &dyn Prop, scenario: &Value, class: &str, budget: u64) -> (Value, u64) {
     let mut best = scenario.clone();
     let mut steps = 0u64;
@@ -700,7 +777,7 @@ pub fn supervise(prop: &dyn Prop, cfg: &SupervisorCfg) -> i32 {
         let (min_sc, steps, minimised) = if is_abort {
             (scenario.clone(), 0, false)
         } else {
-            let (s, n) = shrink(prop, &scenario, class, prop.shrink_budget());
+            let (s, n) = shrink_isolated(prop, &scenario, class, prop.shrink_budget(), &replays_dir);
             (s, n, true)
         };
         let fname = format!("{}/{}-{}-{}-{}.json", replays_dir, id, cfg.seed, i, sanitize(class));
